@@ -46,6 +46,13 @@ func (c *Clause) HasProp(p string) bool {
 	return !any
 }
 
+// ErrOnly: `erroronly[labels] callee ... [| expr]` - the function returns a non-nil error only if one of the listed
+// callees returned a non-nil error before, or expr holds.
+type ErrOnly struct {
+	Clause  *Clause
+	Callees []string
+}
+
 type GhostAssign struct {
 	Var  string
 	Text string
@@ -60,6 +67,7 @@ type Contract struct {
 	Ensures     []*Clause
 	LoopInv     map[int][]*Clause
 	AssertCall  []*Clause
+	ErrorOnly   []*ErrOnly
 	Prologue    []*GhostAssign
 	Epilogue    []*GhostAssign
 	Modifies    []string // heap-name patterns; nil = inferred
@@ -118,7 +126,7 @@ func NewSpec() *Spec {
 var labelRe = regexp.MustCompile(`^\[([^\]]*)\]\s*`)
 var clauseKeywords = map[string]bool{"func": true, "spec": true, "ghost": true, "axiom": true, "import": true, "requires": true,
 	"ensures": true, "loop": true, "assert@call": true, "prologue": true, "epilogue": true, "modifies": true, "pure": true,
-	"assumed": true, "trusted": true, "maypanic": true, "lemma": true, "ground": true, "roundtrip": true, "jsoncompat": true, "tables": true, "orderfree": true, "orderaccept": true, "nosafety": true, "safetykinds": true, "params": true, "safety": true, "fvtargets": true}
+	"assumed": true, "trusted": true, "maypanic": true, "lemma": true, "ground": true, "roundtrip": true, "jsoncompat": true, "tables": true, "orderfree": true, "orderaccept": true, "erroronly": true, "nosafety": true, "safetykinds": true, "params": true, "safety": true, "fvtargets": true}
 
 func splitLabels(rest string) ([]string, string) {
 	if m := labelRe.FindStringSubmatch(rest); m != nil {
@@ -400,6 +408,18 @@ func (s *Spec) ParseSpecFile(path, pkgPath string) error {
 				}
 				c.Loop = n
 				cur.LoopInv[n] = append(cur.LoopInv[n], c)
+			case "erroronly":
+				labels, text := splitLabels(rest)
+				calleesText, extra := text, "false"
+				if i := strings.Index(text, "|"); i >= 0 {
+					calleesText, extra = text[:i], strings.TrimSpace(text[i+1:])
+				}
+				ex, err := ParseExpr(extra)
+				if err != nil {
+					return fail("%v", err)
+				}
+				cl := &Clause{Kind: "erroronly", Labels: labels, Text: text, E: ex, File: path, Line: rl.line}
+				cur.ErrorOnly = append(cur.ErrorOnly, &ErrOnly{Clause: cl, Callees: strings.Fields(calleesText)})
 			case "assert@call":
 				// assert@call callee[labels] expr
 				i := strings.IndexAny(rest, " \t[")
